@@ -1,8 +1,10 @@
 import Genshi.Wire
 import Genshi.WireCore
 import Genshi.Model.Reader
+import Genshi.Model.OutputPipeline
+import Genshi.Lemmas.ReaderDocView   -- specification-side definitions of the document theorems (Mathlib-free)
 namespace Driver.C08
-open Genshi Genshi.Reader Genshi.Sexp
+open Genshi Genshi.Reader Genshi.Output Genshi.Sexp
 
 def strLt : List Char → List Char → Bool
   | [], [] => false
@@ -41,7 +43,98 @@ def xtok : XTok → Sexp
   | .doctype n p s => .list [.atom "DT", .str n, optStr p, optStr s]
   | .xmlDecl v e s => .list [.atom "XD", .str v, optStr e, .str (toString s).toList]
 
+/-! ### `expect`: the right-hand sides of the document-level round-trip theorems
+    (`html_roundtrip_doc_partial`, `xhtml_roundtrip_doc_partial`), computed from the stream -/
+
+/-- a well-nested stream as a forest; `none` when it is not well nested -/
+def parseNodes : Nat → Stream → Option (List Node × Stream)
+  | 0, _ => none
+  | _ + 1, [] => some ([], [])
+  | _ + 1, .end_ t :: rest => some ([], .end_ t :: rest)
+  | fuel + 1, .start t a :: rest =>
+      match parseNodes fuel rest with
+      | some (kids, .end_ _ :: rest') =>
+          (match parseNodes fuel rest' with
+           | some (sibs, r) => some (.elem t a kids :: sibs, r)
+           | none => none)
+      | _ => none
+  | fuel + 1, e :: rest =>
+      match parseNodes fuel rest with
+      | some (ns, r) => some (.leaf e :: ns, r)
+      | none => none
+
+def forestOf (s : Stream) : Option (List Node) :=
+  match parseNodes (s.length + 1) s with
+  | some (ns, []) => some ns
+  | _ => none
+
+/-- leading XML declaration and DOCTYPE split off -/
+def splitProlog (ns : List Node) : Option DeclT × Option DocTypeT × List Node :=
+  let r1 : Option DeclT × List Node := match ns with
+    | .leaf (.xmlDecl v e s) :: r => (some (v, e, s), r)
+    | r => (none, r)
+  let r2 : Option DocTypeT × List Node := match r1.2 with
+    | .leaf (.doctype n p s) :: r => (some (n, p, s), r)
+    | r => (none, r)
+  (r1.1, r2.1, r2.2)
+
+/-- the namespace of the first element (the theorems are about forests in one namespace) -/
+def firstNs : List Node → Str
+  | [] => []
+  | .elem t _ _ :: _ => t.ns
+  | .leaf _ :: rest => firstNs rest
+
+def doctype? : Sexp → Option (Option DocTypeT)
+  | .atom "N" => some none
+  | .list [.atom "name", .str n] => (docTypeGet n).map some
+  | .list [.atom "tuple", .str n, p, s] => do
+      let p ← optStr? p; let s ← optStr? s; pure (some (n, p, s))
+  | _ => none
+
+def out (why : String) : Sexp := .list [.atom "out", .atom why]
+
+def expectHtml (dopt : Option DocTypeT) (s : Stream) : Sexp :=
+  match forestOf s with
+  | none => out "not-nested"
+  | some ns =>
+    let (_, dt, body) := splitProlog ns
+    let u := firstNs body
+    if u == xmlNs then out "xml-namespace"
+    else if !okList body then out "not-a-forest"
+    else if !forestUniformNs u body then out "mixed-namespaces"
+    else if !htmlForestOkP body then out "body-hypotheses"
+    else if !dtOkOf (winDt dopt dt) || !dtNoGtOf (winDt dopt dt) then out "doctype-fields"
+    else .list [.atom "ok", .list ((htmlDocView (winDt dopt dt) (forestPiecesP body)).flatMap htok)]
+
+def expectXhtml (dropd : Bool) (dopt : Option DocTypeT) (s : Stream) : Sexp :=
+  match forestOf s with
+  | none => out "not-nested"
+  | some ns =>
+    let (decl, dt, body) := splitProlog ns
+    let u := firstNs body
+    if u == xmlNs then out "xml-namespace"
+    else if !docNcr u dopt decl dt body then out "carriage-return"
+    else if !attrValOkB u then out "namespace-uri"
+    else if !okList body then out "not-a-forest"
+    else if !forestUniformNs u body then out "mixed-namespaces"
+    else if !xKidsOkP false body then out "body-hypotheses"
+    else if !xmlForestOkP true body then out "not-resolvable"
+    else if !xdViewOk ⟨dropd⟩ decl then out "xmldecl-fields"
+    else if !dtOkOf (winDt dopt dt) then out "doctype-fields"
+    else .list [.atom "ok", .list ((xdXOf ⟨dropd⟩ decl ++ (dtXOf (winDt dopt dt) ++
+      (assemble (forestPiecesXP u false body)).flatMap (xmlMapTok u))).map xtok)]
+
 def handle : List Sexp → Option Sexp
+  -- expect <method> <drop_xml_decl> <doctype> <stream>
+  | [.atom "expect", .atom m, dropd, dt, s] => do
+      let dropd ← dropd.toBool?
+      let s ← streamOfSexp? s
+      match doctype? dt with
+      | none => pure (.atom "unmodelled")
+      | some dt =>
+        if m == "html" then pure (expectHtml dt s)
+        else if m == "xhtml" then pure (expectXhtml dropd dt s)
+        else none
   | [.atom "read", .atom "html", .str s] =>
       match readHtml s with
       | some ts => some (.list (ts.flatMap htok))
